@@ -748,9 +748,24 @@ class Unit:
             return Chunk("repo", label, text, relfile, (src.line_of(it.start), src.line_of(it.end - 1)), sha, [])
 
         if it.kind == "trait":
-            # a trait declaration (signatures only) is copied whole
+            # a trait declaration (signatures only) is copied whole, or restricted to the methods in `only`
             raw = src.text_of(it)
             sha = hashlib.sha256(raw.encode()).hexdigest()
+            if icfg.get("only"):
+                kids = {f"{c.kind} {c.name}": c for c in src.children(it)}
+                head = src.text[it.start:src.ct[it.body_open].end]
+                parts = [head]
+                for sel in icfg["only"]:
+                    if sel not in kids:
+                        raise ExtractError(f"{relfile}: `{sel}` not found in trait `{it.name}`")
+                    parts.append(src.text_of(kids[sel]))
+                parts.append("}")
+                dropped = sorted(set(kids) - set(icfg["only"]))
+                if dropped:
+                    self.report.add("W2", label, f"trait items not used by the extracted code dropped: {dropped}")
+                raw = "\n".join(parts)
+            if self.cfg.get("erase_await") or icfg.get("erase_await"):
+                raw = erase_await(raw, self.report, label)
             text = apply_token_substs(strip_attributes(raw, self.report, label), substs, self.report, label)
             if not text.lstrip().startswith("pub"):
                 text = "pub " + text
